@@ -134,7 +134,7 @@ let () =
             q (expand_template g nm (str_of_field t))
         | ["den"; w; ps] ->
             let w = world_of_field w and ps = pieces_of_field ps in
-            q (render_pieces ps) ^ " " ^ q (den_pieces w ps) ^ " wf=" ^ b2s (wf_pieces ps)
+            q (render_pieces ps) ^ " " ^ q (den_pieces w ps) ^ " wf=" ^ b2s (wf_pieces ps) ^ " dom=" ^ b2s (c10_dom w ps)
         | ["term"; s] ->
             let t = parse_term (utf8_decode (dec_bytes s)) in
             q (render_term t) ^ " " ^ qlist (den_term t) ^ " wf=" ^ b2s (wf_term t)
